@@ -43,7 +43,8 @@ def top_level_slots(lines):
     return slots
 
 
-DECOR = ["\t; комментарий перед ошибкой", "; comment with \"quotes\" and 'c and {", "\t\t; tabs\tinside\tcomment", "", "   "]
+DECOR = ["\t; page break \x0c and vertical tab \x0b in a comment", "; line separator \u2028 next-line \x85 paragraph \u2029 in a comment", "\t; record separators \x1c\x1d\x1e",
+         "\t; комментарий перед ошибкой", "; comment with \"quotes\" and 'c and {", "\t\t; tabs\tinside\tcomment", "", "   "]
 
 
 def plant(host, rnd, fault, where=None, decorate=True):
@@ -90,8 +91,8 @@ def expected_positions(rec):
         return None if f["accept"] is None else set()
     out = set()
     for a in f["accept"]:
-        key = a.split("+")[0]
-        delta = int(a.split("+")[1]) if "+" in a else 0
+        key = a.split("+")[0].split("-")[0]
+        delta = int(a.split("+")[1]) if "+" in a else (-int(a.split("-")[1]) if "-" in a else 0)
         lo, col = f[key]
         line_text = f["lines"][lo]
         out.add((rec["line"] + lo, faults.column_of(line_text, col + delta)))
